@@ -312,6 +312,8 @@ func (e *Engine) assumeTypeInv(s *State, v Val) {
 	ls := e.flatten(v.T)
 	for i, l := range ls {
 		switch l.Role {
+		case "base":
+			e.existedBefore(s, v.L[i])
 		case "off":
 			s.assume(mkCmp(">=", v.L[i], "0"))
 		case "len":
@@ -567,4 +569,34 @@ func (e *Engine) havocMapType(s *State, mt *types.Map) {
 			delete(s.heapRef, k)
 		}
 	}
+}
+
+// Allocation clock: every backing store allocated on the path gets a strictly increasing timestamp, and every
+// backing store merely *obtained* (parameter, load, havoc) is older than the clock at that moment. Hence a fresh
+// allocation never aliases anything that existed before it.
+func (e *Engine) nowTerm(s *State) string {
+	if t, ok := s.ghost["$now"]; ok {
+		return t
+	}
+	t := e.smt.Fresh("now", SInt)
+	s.ghost["$now"] = t
+	s.sort["$now"] = SInt
+	return t
+}
+
+func (e *Engine) existedBefore(s *State, base string) {
+	if base == "nil" {
+		return
+	}
+	e.smt.Declare("allocTime", []string{SU}, SInt)
+	s.assume(mkCmp("<", mkApp("allocTime", base), e.nowTerm(s)))
+}
+
+func (e *Engine) allocatedNow(s *State, base string) {
+	e.smt.Declare("allocTime", []string{SU}, SInt)
+	now := e.nowTerm(s)
+	s.assume(mkEq(mkApp("allocTime", base), now))
+	nn := e.smt.Fresh("now", SInt)
+	s.assume(mkEq(nn, mkAdd(now, "1")))
+	s.ghost["$now"] = nn
 }
